@@ -7,6 +7,8 @@ def run(tier, seed):
     rep = Report("C06", tier, seed, "other")
     from .c17 import add_cons
     add_cons(rep, "C06")
+    from .c17 import add_list
+    add_list(rep, "C06")
     from ..propbase import deductive
     deductive(rep, "C06", ["markdown_it.rules_block.paragraph.paragraph", "markdown_it.rules_block.lheading.lheading", "markdown_it.rules_block.state_block.StateBlock.__init__"], "contracts.block")
     lines_universe(rep, "vf.oracles2:c06_container", tier, "MarkdownIt.parse", "quote form and list form of the law (tokens, maps, inline content, levels, references)", cfgs=["commonmark", "cm+table+strike"], wrapped=False)
